@@ -48,6 +48,20 @@ func TestSweep(t *testing.T) {
 		}
 		ns = append(ns, maxN, maxN-1, maxN-2)
 		ds = append(ds, day, day-1, day-2)
+		// products (rate x duration, count x 10^9) next to multiples of 2^53, 2^63 and 2^64
+		for _, j := range []uint{53, 63, 64} {
+			for m := int64(1); m <= 5; m++ {
+				d0, n0 := WordBoundary(m, j, f), WordBoundary(m, j, 1e9)
+				for _, off := range boundaryOffsets {
+					if d := d0 + off; d0 >= 0 && d >= 0 && d <= day {
+						ds = append(ds, d)
+					}
+					if n := n0 + off; n0 >= 0 && n >= 0 && n <= maxN {
+						ns = append(ns, n)
+					}
+				}
+			}
+		}
 		for h := int64(1); h <= 24; h++ {
 			for off := int64(-3); off <= 3; off++ {
 				if n := int64(f*3600*float64(h)) + off; n >= 0 && n <= maxN {
